@@ -18,6 +18,7 @@ structure Rel (a b : St) : Prop where
   lex : a.lex = b.lex
   frames : a.frames = b.frames
   pending : a.pending.map Rec.low = b.pending.map Rec.low
+  pins : a.pendingInserts = b.pendingInserts
   wal : a.wal.map Rec.low = b.wal.map Rec.low
   cards : a.cards.map Card.low = b.cards.map Card.low
   enrich : a.enrich.map (·.1) = b.enrich.map (·.1)
@@ -38,7 +39,7 @@ structure Inv (s : St) : Prop where
     segment names or of how the documents are spread over segments -/
 def EngineDet (E : Engine) : Prop := ∀ a b q, (flat a).Perm (flat b) → E a q = E b q
 
-theorem Rel.refl (a : St) : Rel a a := ⟨rfl, rfl, rfl, rfl, rfl, rfl, rfl, rfl, rfl, rfl, rfl, rfl, rfl⟩
+theorem Rel.refl (a : St) : Rel a a := ⟨rfl, rfl, rfl, rfl, rfl, rfl, rfl, rfl, rfl, rfl, rfl, rfl, rfl, rfl⟩
 
 theorem map_isEmpty {α β} (f : α → β) (l : List α) : (l.map f).isEmpty = l.isEmpty := by cases l <;> rfl
 
@@ -169,11 +170,11 @@ theorem inv_step (E : Engine) (o : Oracles) (s : St) (op : Op) (i : Inv s) : Inv
   | put ts p u instant trip =>
     simp only [step]
     have h2 : Inv (if (instant && s.lex) = true then
-        { s with pending := s.pending ++ [Rec.insert ts p u none], wal := s.wal ++ [Rec.insert ts p u none], seq := s.seq + 1, dirty := true,
-                 docs := s.docs ++ [{ id := s.seq + 1, ts := ts, text := p }],
-                 segs := s.segs ++ [{ name := o.uuid s.kUuid, docs := [{ id := s.seq + 1, ts := ts, text := p }] }],
+        { s with pending := s.pending ++ [Rec.insert ts p u none], pendingInserts := s.pendingInserts + 1, wal := s.wal ++ [Rec.insert ts p u none], seq := s.seq + 1, dirty := true,
+                 docs := s.docs ++ [{ id := s.frames.length + s.pendingInserts, ts := ts, text := p }],
+                 segs := s.segs ++ [{ name := o.uuid s.kUuid, docs := [{ id := s.frames.length + s.pendingInserts, ts := ts, text := p }] }],
                  kUuid := s.kUuid + 1, tantivyDirty := true }
-      else { s with pending := s.pending ++ [Rec.insert ts p u none], wal := s.wal ++ [Rec.insert ts p u none], seq := s.seq + 1, dirty := true }) := by
+      else { s with pending := s.pending ++ [Rec.insert ts p u none], pendingInserts := s.pendingInserts + 1, wal := s.wal ++ [Rec.insert ts p u none], seq := s.seq + 1, dirty := true }) := by
       split
       · refine ⟨?_, ?_⟩
         · simp only [flat, List.flatMap_append, List.flatMap_cons, List.flatMap_nil, List.append_nil]
@@ -222,14 +223,14 @@ theorem rel_commit (o₁ o₂ : Oracles) (a b : St) (r : Rel a b) (ia : Inv a) (
   · simp only
     rw [r.lex]
     split
-    · exact ⟨rfl, hfr, rfl, r.wal, r.cards, r.enrich, r.docs, r.seq, rfl, rfl, r.lexw, by simp [r.gen], by simp [r.stale, r.docs, r.gen, hce]⟩
+    · exact ⟨rfl, hfr, rfl, rfl, r.wal, r.cards, r.enrich, r.docs, r.seq, rfl, rfl, r.lexw, by simp [r.gen], by simp [r.stale, r.docs, r.gen, hce]⟩
     · split
-      · refine ⟨rfl, hfr, rfl, ?_, r.cards, r.enrich, by rw [hfr], by simp [r.seq], rfl, rfl, rfl, by simp [r.gen], by simp [r.stale, r.docs, r.gen, hce]⟩
+      · refine ⟨rfl, hfr, rfl, rfl, ?_, r.cards, r.enrich, by rw [hfr], by simp [r.seq], rfl, rfl, rfl, by simp [r.gen], by simp [r.stale, r.docs, r.gen, hce]⟩
         simp only [List.map_append, List.map_cons, List.map_nil, Rec.low, map_isEmpty, layout_isEmpty, r.wal, hfr]
       · split
-        · refine ⟨rfl, r.frames, r.pending, ?_, r.cards, r.enrich, r.docs, by simp [r.seq], rfl, rfl, rfl, by simp [r.gen], by simp [r.stale, r.docs, r.gen, hce]⟩
+        · refine ⟨rfl, r.frames, r.pending, r.pins, ?_, r.cards, r.enrich, r.docs, by simp [r.seq], rfl, rfl, rfl, by simp [r.gen], by simp [r.stale, r.docs, r.gen, hce]⟩
           simp only [List.map_append, List.map_cons, List.map_nil, Rec.low, map_isEmpty, segs_isEmpty_of_inv ia, segs_isEmpty_of_inv ib, r.docs, r.wal]
-        · exact ⟨rfl, r.frames, r.pending, r.wal, r.cards, r.enrich, r.docs, r.seq, rfl, rfl, r.lexw, by simp [r.gen], by simp [r.stale, r.docs, r.gen, hce]⟩
+        · exact ⟨rfl, r.frames, r.pending, r.pins, r.wal, r.cards, r.enrich, r.docs, r.seq, rfl, rfl, r.lexw, by simp [r.gen], by simp [r.stale, r.docs, r.gen, hce]⟩
 
 theorem rel_dropCommit (o₁ o₂ : Oracles) (a b : St) (r : Rel a b) (ia : Inv a) (ib : Inv b) : Rel (dropCommit o₁ a) (dropCommit o₂ b) := by
   unfold dropCommit
@@ -252,15 +253,15 @@ theorem rel_openFile (o₁ o₂ : Oracles) (a b : St) (r : Rel a b) (ia : Inv a)
   · simp only
     rw [r.lexw]
     split
-    · exact ⟨rfl, r.frames, r.pending, r.wal, r.cards, r.enrich, r.docs, r.seq, r.dirty, rfl, rfl, r.gen, r.stale⟩
-    · refine ⟨rfl, r.frames, r.pending, ?_, r.cards, r.enrich, r.docs, by simp [r.seq], r.dirty, rfl, rfl, r.gen, r.stale⟩
+    · exact ⟨rfl, r.frames, r.pending, r.pins, r.wal, r.cards, r.enrich, r.docs, r.seq, r.dirty, rfl, rfl, r.gen, r.stale⟩
+    · refine ⟨rfl, r.frames, r.pending, r.pins, ?_, r.cards, r.enrich, r.docs, by simp [r.seq], r.dirty, rfl, rfl, r.gen, r.stale⟩
       simp only [List.map_append, List.map_cons, List.map_nil, Rec.low, map_isEmpty, segs_isEmpty_of_inv ia, segs_isEmpty_of_inv ib, r.docs, r.wal]
 
 set_option hygiene false in
 /-- closes every field of a `Rel` goal between two updated states from the fields of `r : Rel a b` -/
 local macro "rel_close" : tactic =>
   `(tactic| (constructor <;>
-      simp only [List.map_append, List.map_cons, List.map_nil, Rec.low, r.lex, r.frames, r.pending, r.wal, r.cards, r.enrich,
+      simp only [List.map_append, List.map_cons, List.map_nil, Rec.low, r.lex, r.frames, r.pending, r.pins, r.wal, r.cards, r.enrich,
         r.docs, r.seq, r.dirty, r.tdirty, r.lexw, r.gen, r.stale, autoCards_low o₁ o₂ a.kClock b.kClock]))
 
 theorem rel_step (E : Engine) (hE : EngineDet E) (o₁ o₂ : Oracles) (a b : St) (op : Op) (r : Rel a b) (ia : Inv a) (ib : Inv b) :
@@ -322,7 +323,7 @@ theorem rel_runFrom (E : Engine) (hE : EngineDet E) (o₁ o₂ : Oracles) (h : L
 
 theorem rel_create (lex : Bool) (o₁ o₂ : Oracles) : Rel (create lex o₁) (create lex o₂) := by
   unfold create
-  split <;> exact ⟨rfl, rfl, rfl, rfl, rfl, rfl, rfl, rfl, rfl, rfl, rfl, rfl, rfl⟩
+  split <;> exact ⟨rfl, rfl, rfl, rfl, rfl, rfl, rfl, rfl, rfl, rfl, rfl, rfl, rfl, rfl⟩
 
 theorem rel_run (E : Engine) (hE : EngineDet E) (lex : Bool) (o₁ o₂ : Oracles) (h : List Op) :
     Rel (run E lex o₁ h).1 (run E lex o₂ h).1 ∧ (run E lex o₁ h).2 = (run E lex o₂ h).2
